@@ -323,7 +323,15 @@ func (mbox *MailboxView) Fetch(w *imapserver.FetchWriter, numSet imap.NumSet, op
 			mbox.Mailbox.tracker.QueueMessageFlags(seqNum, msg.uid, msg.flagList(), nil)
 		}
 
-		respWriter := w.CreateMessage(mbox.tracker.EncodeSeqNum(seqNum))
+		clientSeqNum := mbox.tracker.EncodeSeqNum(seqNum)
+		if clientSeqNum == 0 {
+			// The client hasn't been told about this message yet (it can
+			// only be addressed by UID): it has no sequence number to
+			// report the data with
+			return
+		}
+
+		respWriter := w.CreateMessage(clientSeqNum)
 		err = msg.fetch(respWriter, options)
 	})
 	return err
